@@ -546,13 +546,15 @@ def forall_elim_facts(exprs):
         fl = ForallList._made[a.decl().name()]
         l = a.arg(0)
         ps = [a.arg(i) for i in range(1, a.num_args())]
-        lid = l.get_id()
+        lids = {l.get_id()}
+        if z3.is_app(l) and l.decl().name() in ('items', 'ditems', 'titems', 'sitems') and l.num_args() == 1:
+            lids.add(l.arg(0).get_id())     # items(ite(c, x, y)) is built from x as much as from items(x)
         for t in nths:
             # indices of nth terms over this list or over a list built from it (vals/keys/ite/app ...) are tried on it
-            if lid in _subterm_ids(t.arg(0)):
+            if lids & _subterm_ids(t.arg(0)):
                 out.append(fl.elem(l, t.arg(1), *ps))
         for t in lookups:
             # association lists: a found entry satisfies the predicate (as a (key, value) pair)
-            if lid in _subterm_ids(t.arg(0)):
+            if lids & _subterm_ids(t.arg(0)):
                 out.append(z3.Implies(z3.And(fl.fn(l, *ps), lookup(l, t.arg(1)) != V.Missing), fl.pred(V.Pair(t.arg(1), lookup(l, t.arg(1))), *ps)))
     return out
